@@ -222,9 +222,10 @@ def decorate(rng, n, opts, ids):
         sem["attr_paint"] = paint
     if rng.random() < pp * 0.6:
         st = {}
-        for prop in ("fill", "stroke", "stroke-width"):
-            if rng.random() < 0.45:
-                st[prop] = rng.choice(COLORS[:9]) if prop != "stroke-width" else rng.choice(["2.5", "6", "1"])
+        for prop in ("fill", "stroke", "stroke-width", "color"):
+            if rng.random() < (0.45 if prop != "color" else 0.2):
+                st[prop] = (rng.choice(COLORS[:10]) if prop in ("fill", "stroke") else
+                            rng.choice(["2.5", "6", "1"]) if prop == "stroke-width" else rng.choice(["maroon", "#00f", "olive"]))
         if st:
             sem["inline"] = st
     cl = opts.get("classes", [])
@@ -295,10 +296,11 @@ def rand_sheet(rng, classes, ids_hint):
             else:
                 sels.append("#e%d" % rng.randint(0, ids_hint))
         decls = {}
-        for prop in ("fill", "stroke", "stroke-width", "fill-opacity"):
-            if rng.random() < 0.4:
-                decls[prop] = (rng.choice(COLORS[:9]) if prop in ("fill", "stroke") else
-                               rng.choice(["3", "0.75", "5"]) if prop == "stroke-width" else rng.choice(["0.5", "0.2"]))
+        for prop in ("fill", "stroke", "stroke-width", "fill-opacity", "color", "stroke-opacity"):
+            if rng.random() < (0.4 if prop in ("fill", "stroke", "stroke-width") else 0.15):
+                decls[prop] = (rng.choice(COLORS[:10]) if prop in ("fill", "stroke") else
+                               rng.choice(["3", "0.75", "5"]) if prop == "stroke-width" else
+                               rng.choice(["navy", "#f0f", "gray"]) if prop == "color" else rng.choice(["0.5", "0.2"]))
         if not decls:
             decls["fill"] = rng.choice(COLORS[:5])
         rules.append([sorted(set(sels), key=sels.index), decls])
@@ -473,6 +475,11 @@ def observe_shape(e):
         o["sw"] = repr(e.stroke_width)
     m = e.transform
     o["m"] = [float(m.a), float(m.b), float(m.c), float(m.d), float(m.e), float(m.f)]
+    if isinstance(e, Path):
+        try:
+            o["segs"] = pl.observe_path(e)       # the path's own segments (untransformed when parsed with reify=False)
+        except Exception as ex:
+            o["segs"] = None
     try:
         o["abs"] = pl.observe_path(abs(Path(e)))
     except Exception as ex:
@@ -519,9 +526,12 @@ def parse_model(out):
         i = 19
         d["nums"] = [hexf(x) for x in t[i:i + n]]
         i += n
-        rest = [x for x in t[i:] if x != ""]
-        d["opts"] = [None if x == "-" else hexf(x) for x in rest[:-1]]
-        d["d"] = bytes.fromhex(rest[-1][1:]).decode()
+        rest = t[i:]
+        k = [j for j, x in enumerate(rest) if x.startswith("D:")][0]
+        d["opts"] = [None if x == "-" else hexf(x) for x in rest[:k] if x != ""]
+        d["d"] = bytes.fromhex(rest[k][2:]).decode()
+        ptoks = rest[k + 1:]
+        d["psegs"] = pl.parse_model_segs(" ".join(ptoks[1:])) if d["kind"] == "path" and ptoks and ptoks[0] == "P:" else None
         shapes.append(d)
     return "OK", shapes
 
@@ -554,6 +564,16 @@ def reference_shape(ms, geom_only=False):
 
 def ref_abs(ms):
     return pl.observe_path(abs(reference_shape(ms)))
+
+
+def path_data_diff(obs_shape, ms):
+    """a path element parsed with reify=False: its stored segments against the Lean character-level parse of its `d`
+    (independent of the library's own path parser, unlike the absolute-geometry reference)"""
+    if ms.get("psegs") is None or obs_shape.get("segs") is None:
+        return None
+    if any(v != w for v, w in zip(obs_shape["m"], ms["m"])) and False:
+        return None
+    return pl.segs_diff(obs_shape["segs"], ms["psegs"], 1e-9)
 
 
 def geom_diff(obs_abs, ms, tol=1e-7):
